@@ -110,6 +110,61 @@ def drawF32 (word32 : Nat) : Dy := ⟨(word32 % 2 ^ 32) / 2 ^ 8, -24⟩
 /-- `rng.random::<f64>()`: the top 53 bits of a `u64`, times `2^-53`. -/
 def drawF64 (word64 : Nat) : Dy := ⟨(word64 % 2 ^ 64) / 2 ^ 11, -53⟩
 
+/-! ## The default random number generator (`DefaultRng<R>`)
+
+`DefaultRng<R>` is stateless: every `RngCore` method builds `R::default()` and forwards to the *same*
+method of it (`ThreadRng::default()` is a handle on the thread's generator). The inner generator is a
+script of 64-bit words (zeros after its end): `next_u64` = the next word, `next_u32` = the top 32 bits of
+the next word, `fill_bytes` = the little-endian bytes of successive words (the harness's scripted `R`).
+`narrow` is `false` in the code; `true` is the variant whose `next_u64` is `next_u32` zero-extended,
+stated so that it can be refuted (`Props/C12.lean`, `c12_default_rng_narrow_breaks`). -/
+
+structure Script where
+  words : List Nat
+  pos : Nat
+  deriving Repr
+
+def Script.next (s : Script) : Nat × Script := ((s.words.getD s.pos 0) % 2 ^ 64, { s with pos := s.pos + 1 })
+
+inductive RngCall where
+  | u32 | u64
+  | fill (len : Nat)
+  /-- `rng.random::<f32>()` -/
+  | f32
+  /-- `rng.random::<f64>()` -/
+  | f64
+  deriving Repr, DecidableEq
+
+/-- little-endian bytes of a 64-bit word -/
+def leBytes (w : Nat) : List Nat := (List.range 8).map fun i => (w / 2 ^ (8 * i)) % 256
+
+def fillBytes : Nat → Nat → Script → List Nat × Script
+  | 0, _, s => ([], s)
+  | _ + 1, 0, s => ([], s)
+  | fuel + 1, len + 1, s =>
+    let (w, s') := s.next
+    let take := min (len + 1) 8
+    let (rest, s'') := fillBytes fuel (len + 1 - take) s'
+    ((leBytes w).take take ++ rest, s'')
+
+/-- what a call returns: the integer, the bytes, or the numerator of the draw -/
+def innerCall (s : Script) : RngCall → List Nat × Script
+  | .u32 => ([s.next.1 / 2 ^ 32], s.next.2)
+  | .u64 => ([s.next.1], s.next.2)
+  | .fill len => fillBytes (len + 1) len s
+  | .f32 => ([(drawF32 (s.next.1 / 2 ^ 32)).m], s.next.2)
+  | .f64 => ([(drawF64 s.next.1).m], s.next.2)
+
+/-- `DefaultRng<R>`'s methods (`narrow = false`: the code) -/
+def wrapperCall (narrow : Bool) (s : Script) : RngCall → List Nat × Script
+  | .u64 => if narrow then innerCall s .u32 else innerCall s .u64
+  | .f64 => if narrow then ([(drawF64 (s.next.1 / 2 ^ 32)).m], s.next.2) else innerCall s .f64
+  | c => innerCall s c
+
+def runCalls (f : Script → RngCall → List Nat × Script) (s : Script) : List RngCall → List (List Nat)
+  | [] => []
+  | c :: cs => (f s c).1 :: runCalls f (f s c).2 cs
+
 /-! ## The sampling decision -/
 
 def one : Dy := ⟨1, 0⟩
